@@ -476,14 +476,14 @@ def state_matrices(st, owner):
                  'CANCELLED': 'stop_workflow'}
     # executions: current state x requested state x description/env
     for cur, req, extra in itertools.product(
-            EX_STATES, REQ, (None, 'description', 'env')):
+            EX_STATES, REQ, (None, 'description', 'env', 'both')):
         sim.reset()
         f = fixtures(owner)
         _set_state('workflow_executions_v2', f['ex_id'], cur)
         body = {'state': req}
-        if extra == 'description':
+        if extra in ('description', 'both'):
             body['description'] = 'new-desc'
-        if extra == 'env':
+        if extra in ('env', 'both'):
             body['params'] = '{"env": {"k": "v"}}'
         n_rpc = len(sim.W.rpc_log)
         before = rest.db_dump()
@@ -496,8 +496,8 @@ def state_matrices(st, owner):
                 'extra': extra, 'status': status, 'engine_calls': calls}
         st.case(runner.fp(['exm', cur, req, extra]), True,
                 ['execution_matrix', 'status_%d' % status], case)
-        legal = req in ENGINE_OK and extra != 'description' and not (
-            extra == 'env' and req != 'RUNNING')
+        legal = req in ENGINE_OK and extra not in ('description', 'both') \
+            and not (extra == 'env' and req != 'RUNNING')
         if not legal:
             if calls:
                 viol.append({'kind': 'illegal-execution-update-reached-'
